@@ -90,6 +90,11 @@ def main(argv):
         for f in files_of.get(p, []) + ANCHORS.EXTRA.get(p, []):
             by_file.setdefault(f, [])
             if p not in by_file[f]: by_file[f].append(p)
+    # a file is shared by several properties (vec_map.rs: C12's rank / partition and C13's shift / fill): a mutant survives only if
+    # NO check anchored in the file reports it - the requested properties first, then every other one
+    for f in by_file:
+        for p in sorted(files_of):
+            if f in files_of.get(p, []) + ANCHORS.EXTRA.get(p, []) and p not in by_file[f]: by_file[f].append(p)
     allsites = []
     for f in sorted(by_file):
         if only and only not in f: continue
